@@ -57,6 +57,7 @@ Check ==
   IN /\ Emit => PrintT("CASE " \o ToJson(case))
      \* the defining predicate of a stable sort
      /\ Named(Len(out) = Len(vals) /\ \A j \in 1..Len(vals) : \E m \in 1..Len(out) : out[m] = vals[j], "Permutation")
+     /\ Named(out = InsSortByKeys(vals, keys), "RankSortEqualsInsertionSort")
      /\ Named(\A m \in 1..(Len(out) - 1) : ~KeyLess(ObjGet(out[m + 1], <<107>>), ObjGet(out[m], <<107>>)), "Ordered")
      /\ Named(\A m \in 1..(Len(out) - 1) :
                  KeyEq(ObjGet(out[m], <<107>>), ObjGet(out[m + 1], <<107>>)) => pos(out[m]) < pos(out[m + 1]), "TiesKeepInputOrder")
